@@ -341,6 +341,54 @@ func c03Spaces(c *fw.Ctx) {
 	if c.Thorough {
 		maxTok = 7
 	}
+	// A caller of the exported PackDomainName keeps one compression map for a message. A name that is refused must
+	// leave nothing behind that makes a later name pass: "judged valid by IsDomainName exactly when PackDomainName
+	// accepts it" holds for the second call as for the first.
+	c.Space("after-failed-pack", "PackDomainName with one compression map for two names: a refused name (empty label, 64-octet label, 256 wire octets — each behind 1..3 good labels) and then every name 'x.' + tail over the tails of the refused one: the second call accepts exactly what IsDomainName accepts, and what it emits unpacks to the name it was given; non-trivial: the tail is itself refused by IsDomainName", true,
+		func(emit func(func(*fw.R))) {
+			long := strings.Repeat("a", 64)
+			l63 := strings.Repeat("b", 63)
+			bads := []string{"a.b..c.", "a..c.", "a.b.c..d.", "a.b." + long + ".", "a." + long + ".c.", "a.b.c." + long + ".d.",
+				"a.b." + l63 + "." + l63 + "." + l63 + "." + strings.Repeat("c", 59) + ".", "a." + l63 + "." + l63 + "." + l63 + "." + strings.Repeat("c", 61) + ".", `a.b\..c..d.`}
+			for _, bad := range bads {
+				bad := bad
+				emit(func(r *fw.R) {
+					p := rn.Parse(bad)
+					_ = p
+					starts := rn.LabelStarts(bad)
+					for _, st := range starts[1:] {
+						tail := bad[st:]
+						second := "x." + tail
+						buf := make([]byte, 2048)
+						comp := map[string]int{}
+						if _, err := dns.PackDomainName(bad, buf, 0, comp, true); err == nil {
+							if _, ok := dns.IsDomainName(bad); !ok {
+								r.Fail("pack-vs-isdomainname/first-call", "PackDomainName(%q) accepted a name IsDomainName refuses", clip(bad))
+							}
+							return
+						}
+						_, valid := dns.IsDomainName(second)
+						if !valid {
+							r.Nontrivial()
+						}
+						off, err := dns.PackDomainName(second, buf, 300, comp, true)
+						if (err == nil) != valid {
+							r.Fail("pack-accepts-invalid/after-failed-pack", "map used for the refused PackDomainName(%q), then PackDomainName(%q) err = %v while IsDomainName says %v (map now %d entries)", clip(bad), clip(second), err, valid, len(comp))
+							continue
+						}
+						if err == nil {
+							back, _, uerr := dns.UnpackDomainName(buf[:off], 300)
+							q := rn.Parse(back)
+							w := rn.Parse(second)
+							if uerr != nil || !q.OK || !rn.Equal(q.Labels, w.Labels) {
+								r.Fail("pack-emits-other-name/after-failed-pack", "after the refused %q: PackDomainName(%q) emitted octets that unpack to %q (%v)", clip(bad), clip(second), back, uerr)
+							}
+						}
+					}
+				})
+			}
+		})
+
 	c.Space("strings", fmt.Sprintf("all strings of ≤ %d tokens over %q, as given and with a final dot; non-trivial: fully qualified and valid under the reference", maxTok, toks), true,
 		func(emit func(func(*fw.R))) {
 			var rec func(prefix string, depth int)
